@@ -414,6 +414,7 @@ type ARel struct {
 type ALoaded struct {
 	OK            bool     `json:"ok"`
 	Types         []string `json:"types"`
+	Builtins      []string `json:"builtins"`
 	Dirs          []string `json:"dirs"`
 	Possible      []ARel   `json:"possible"`
 	Implements    []ARel   `json:"implements"`
@@ -459,9 +460,12 @@ func relOf(m map[string][]*ast.Definition, schema *ast.Schema, dangling *string)
 }
 
 func ProjectLoaded(s *ast.Schema) ALoaded {
-	l := ALoaded{OK: true, Types: []string{}, Dirs: []string{}, Q: []string{}, M: []string{}, S: []string{}, Files: []string{}}
+	l := ALoaded{OK: true, Types: []string{}, Builtins: []string{}, Dirs: []string{}, Q: []string{}, M: []string{}, S: []string{}, Files: []string{}}
 	for n, d := range s.Types {
 		l.Types = append(l.Types, n)
+		if d != nil && d.BuiltIn {
+			l.Builtins = append(l.Builtins, n)
+		}
 		if d == nil {
 			l.Dangling = "Types[" + n + "] is nil"
 		} else if d.Name != n {
@@ -469,6 +473,7 @@ func ProjectLoaded(s *ast.Schema) ALoaded {
 		}
 	}
 	sort.Strings(l.Types)
+	sort.Strings(l.Builtins)
 	for n, d := range s.Directives {
 		l.Dirs = append(l.Dirs, n)
 		if d == nil {
